@@ -20,7 +20,7 @@
 From Coq Require Import String.
 From Coq Require Import ZArith List Bool Lia.
 Import ListNotations.
-Open Scope string_scope.
+Local Open Scope string_scope.
 
 (* ------------------------------------------------------------------ *)
 (** * 1. The stack machine of [AliasedFactory.from_alias] *)
@@ -392,3 +392,33 @@ Section Explicit.
       end
     end.
 End Explicit.
+
+(* ------------------------------------------------------------------ *)
+(** * 6. Registration order *)
+
+(* classes in the order parent, then each child's subtree, children in
+   registration order *)
+Fixpoint preorder (t : ctree) : list ctree :=
+  match t with Node _ _ ch => t :: concat (map preorder ch) end.
+
+Fixpoint increasing (l : list Z) : bool :=
+  match l with
+  | x :: ((y :: _) as tl) => Z.ltb x y && increasing tl
+  | _ => true
+  end.
+
+(* Identities are registration ranks (the translator numbers class statements
+   in execution order).  A tree is "registered depth first" when every class was
+   registered after its base and after the whole subtree of every earlier
+   sibling - e.g. each family completely defined in one module. *)
+Definition registered_depth_first (t : ctree) : bool :=
+  increasing (map t_id (preorder t)).
+
+(* every node is registered after its base class, siblings in order: what any
+   class tree built by Python satisfies *)
+Fixpoint registration_consistent (t : ctree) : bool :=
+  match t with
+  | Node c _ ch =>
+    forallb (fun x => Z.ltb c (t_id x)) ch && increasing (map t_id ch)
+    && forallb registration_consistent ch
+  end.
